@@ -5,5 +5,6 @@
 extern crate static_assertions;
 
 pub mod support;
+pub mod tokfmt;
 
 include!(concat!(env!("OUT_DIR"), "/corpus.rs"));
